@@ -9,6 +9,7 @@
 #define ENVSHIM_H
 
 #include <stdbool.h>
+#include <stddef.h>
 #include <stdint.h>
 #include <sys/socket.h>
 
@@ -95,6 +96,13 @@ int  env_last_tcp_fd_created(void);
 
 /* optional observer of every wrapped call (entry; name + first three arguments cast to long); default NULL */
 extern void (*env_syscall_hook)(const char *name, long a, long b, long c);
+
+/* forked child (pid != the pid that called env_init): number of calls that altered a kernel object shared with the
+   owner through an inherited descriptor (epoll_ctl on an inherited epoll instance, timerfd_settime, setsockopt, send,
+   and whatever the harness reports through env_note_child_call, e.g. shutdown); `what` = "<call>@<object kind>" of
+   the first one.  close() of an inherited duplicate is not an alteration.  0 in the owner. */
+int  env_child_alterations(char *what, size_t n);
+void env_note_child_call(const char *call, int fd);
 
 /* direct (unwrapped) access for the harness */
 int env_real_close(int fd);
